@@ -1,6 +1,7 @@
 import QcoVerif.Properties.C11
 import QcoVerif.Lemmas.BuilderSrc
 import QcoVerif.Generated.Limits
+import QcoVerif.Lemmas.FacadeSrc
 /-
   C11 — tie to the SOURCE TEXT (DESIGN.md §2.3b).  Kept in a file of its own that nothing imports: a change of the translated
   source functions breaks THESE obligations only, not the build of the property files that import Properties/C11.lean.
@@ -33,5 +34,23 @@ end BuilderSourceTie
     graphs of fewer layers.  The bound they are stated for is the one the pinned code has: lowering it breaks this obligation
     (and the harness then builds a chain deeper than the new bound). -/
 theorem graph_depth_bound_pinned : 5000 ≤ Qco.Gen.maxGraphDepth := by decide
+
+
+/-! ### the facade `DeclarativeCircuit` as written (Lemmas/FacadeSrc.lean; DESIGN.md §2.3b) -/
+
+section Facade
+open Qco.Py Qco.Gen.PySrc Qco.BuilderSrc Qco.FacadeSrc
+
+/-- **`flatten`**: the same, with `apply_flatten_to_self`. -/
+theorem facade_flatten_matches_source :
+    let st := stObj 2 [("apply_flatten_to_self()", stObj 2 [])]
+    let fresh := Val.tuple [.str "DeclarativeCircuit", .tuple [.str "nr_qubits", .int 0]]
+    callEffects builderEnv Decl_flatten [declObj 1 st addedObj regObj] =
+      [Val.tuple [.str "setattr", fresh, .str "_structure", stObj 2 []],
+       Val.tuple [.str "setattr", fresh, .str "_added_operations", addedObj],
+       Val.tuple [.str "setattr", fresh, .str "_acquisition_registry", regObj]] :=
+  FacadeSrc.flatten_matches_source 
+
+end Facade
 
 end Qco.C11
